@@ -284,7 +284,7 @@ PROPS = {
     "C04": dict(module="T2N.Props.C04", streams=_apply_all(), oracles=["c04"]),
     "C05": dict(module="T2N.Props.C05", streams=_apply_all() + ["script"], oracles=["c05"]),
     "C06": dict(module="T2N.Props.C06", streams=["script"] + all_langs("scan") + all_langs("fmt"), oracles=["c06"]),
-    "C07": dict(module="T2N.Props.C07", streams=_apply_all() + ["ds", "script", "scan:en", "scan:nl"] + all_langs("pfx"), oracles=["c07"]),
+    "C07": dict(module="T2N.Props.C07", streams=_apply_all() + ["ds", "script", "scan:en", "scan:nl", "text:en", "text:fr"] + all_langs("pfx"), oracles=["c07"]),
     "C08": dict(module="T2N.Props.C08", streams=_apply_all(), oracles=["c08"]),
     "C09": dict(module="T2N.Props.C09", streams=["script", "scan:en", "scan:fr"], oracles=["c09"]),
     "C10": dict(module="T2N.Props.C10", streams=["script", "annot", "text:fr", "text:en"], oracles=["c10"]),
